@@ -136,14 +136,15 @@ impl Inst for WksI {
         match rng.below(10) {
             0..=5 => {
                 let t = rng.below(3);
-                format!("poll {} {} {}", t, if rng.chance(3, 4) { t } else { rng.below(NWAKERS as u64) }, if rng.chance(1, 3) { 1 } else { 0 })
+                // more distinct wakers than the inline capacity (N = 4) of the `Wakers` list
+                format!("poll {} {} {}", t, if rng.chance(1, 2) { t } else { rng.below(NWAKERS as u64) }, if rng.chance(1, 3) { 1 } else { 0 })
             }
             6..=8 => "notify".into(),
             _ => format!("dropfut {}", rng.below(3)),
         }
     }
     fn alphabet() -> Vec<String> {
-        ["poll 0 0 0", "poll 0 0 1", "poll 1 1 0", "poll 1 1 1", "poll 2 3 0", "notify"].iter().map(|s| s.to_string()).collect()
+        ["poll 0 0 0", "poll 0 0 1", "poll 1 1 0", "poll 1 2 0", "poll 2 3 0", "poll 2 4 0", "notify"].iter().map(|s| s.to_string()).collect()
     }
     fn apply(&mut self, op: &[&str], wk: &Wakers) -> String {
         match op[0] {
